@@ -126,6 +126,7 @@ def run(ctx):
     texts, dist = common.gen_texts(ctx, ctx.n(2500, 40000))
     texts = common.corpus('parse') + texts
     res = {'disagreements': [], 'failures': []}
+    res['failures'] += common.threshold_failures('C03', ctx.quick())
     dis, dumps = common.corr_stage('parse', texts, impl.parse_dump, 'parse', extra='all ')
     res['disagreements'] += dis
     npass = len(impl.pass_list())
@@ -169,4 +170,7 @@ def shrink(f):
 
 
 def replay(payload):
+    _f = payload.get('failure') or {}
+    if _f.get('threshold_input'):
+        return common.threshold_replay('C03', _f)
     return common.replay_with(oracle, payload)
